@@ -262,6 +262,12 @@ pub fn gen_c07(rng: &mut Rng, thorough: bool) -> Vec<Tagged> {
     for a in ALL_ACTS {
         for bwd in [false, true] {
             out.push((format!("{:?}-edge", a), Case::Act(a, bwd, t1(edge.clone()))));
+            // the same boundary values through the 3-D copy of every activation (the two rank copies are
+            // separate code), as a (2, 2, k) tensor
+            let k = edge.len() / 4;
+            if k > 0 {
+                out.push((format!("{:?}-edge-3d", a), Case::Act(a, bwd, t3(2, 2, k, &edge[..4 * k]))));
+            }
         }
     }
     out
